@@ -56,6 +56,24 @@ type spec struct {
 	Fields  []string // receiver fields used, turned into leading parameters: "name:type"
 	OutPtr  string   // name of a pointer out-parameter (its pointee is the result)
 	FloatSym bool    // float32 results are symbolic float expressions (Go.FExpr)
+	// the extended subset (ext.go)
+	Ext     bool         // translate with the extended translator
+	Structs []structSpec // struct types the function uses
+	Oracles []string     // function-typed parameters that are effectful callbacks
+	Consts  []constSpec  // package-level constants / error values the function mentions
+	Prims   []string     // library functions kept abstract as leading parameters (sortFunc)
+	WrapInt bool         // int / int64 `+ - *` wrap at 64 bits (Go.wrap64) instead of assuming no overflow
+	Frag    *fragSpec    // translate a run of statements of the function as a function of its own
+	Name    string       // Lean name (default: the Go name, Recv_Func for methods)
+	Uses    []useSpec    // functions of other generated modules it calls
+}
+
+// a fragment: the consecutive statements of one block from the one whose text starts with First to
+// the one whose text starts with Last; the variables it reads become parameters, Results are returned
+type fragSpec struct {
+	First, Last string
+	Params      []string // "name type" in Go syntax
+	Results     []string // names of parameters / variables returned, in order
 }
 
 var specs = []spec{
@@ -79,11 +97,46 @@ var specs = []spec{
 	{File: "distance/distance.go", Func: "hammingDistance", Module: "BitDist", FloatSym: true},
 	{File: "distance/distance.go", Func: "jaccardDistance", Module: "BitDist", FloatSym: true},
 	{File: "shard/vectorstore/binary.go", Func: "encode", Recv: "binaryQuantizer", Module: "BitDist", Fields: []string{"threshold:[]float32"}},
+	// extended subset
+	{File: "cluster/placement.go", Func: "distributePoints", Module: "Placement", Ext: true, Oracles: []string{"createShardFn"},
+		Structs: []structSpec{{File: "cluster/actions.go", Name: "shardInfo"}, {File: "models/point.go", Name: "Point"}}},
+	{File: "shard/idcounter.go", Func: "MaxId", Recv: "IdCounter", Module: "IdCounter", Ext: true, Structs: idCounterFields},
+	{File: "shard/idcounter.go", Func: "NextId", Recv: "IdCounter", Module: "IdCounter", Ext: true, Structs: idCounterFields},
+	{File: "shard/idcounter.go", Func: "FreeId", Recv: "IdCounter", Module: "IdCounter", Ext: true, Structs: idCounterFields},
+	{File: "cluster/actions.go", Func: "curateFailedPoints", Module: "Curate", Ext: true, Structs: curateStructs, Prims: []string{"sortFunc"},
+		Consts: []constSpec{{File: "cluster/errors.go", Name: "ErrShardUnavailable", As: "ErrShardUnavailable"}}},
+	{File: "utils/compare.go", Func: "AccessNestedProperty", Module: "Compare", Ext: true},
+	{File: "utils/compare.go", Func: "SortSearchResults", Module: "Compare", Ext: true, Structs: sortStructs,
+		Prims: []string{"sortFunc", "CompareAny=func(a, b any) int"}},
+	pagingSpec,
+	{File: "shard/shard.go", Func: "changePointCount", Module: "PointCount", Ext: true,
+		Consts: []constSpec{{File: "shard/shard.go", Name: "POINTCOUNTKEY", As: "POINTCOUNTKEY"}},
+		Uses: []useSpec{{Go: "conversion.BytesToUint64", Lean: "Gen.Conversion.BytesToUint64", Sig: "func([]byte) uint64", Module: "Conversion"},
+			{Go: "conversion.Uint64ToBytes", Lean: "Gen.Conversion.Uint64ToBytes", Sig: "func(uint64) []byte", Module: "Conversion"}}},
 }
 
+// the paging at the end of Shard.SearchPoints
+var pagingSpec = spec{File: "shard/shard.go", Func: "SearchPoints", Recv: "Shard", Module: "Paging", Ext: true, WrapInt: true, Name: "SearchPoints_paging",
+	Structs: []structSpec{{File: "models/search.go", Name: "SearchRequest", Only: []string{"Offset", "Limit"}}, {File: "models/search.go", Name: "SearchResult", Only: []string{"NodeId"}}},
+	Frag: &fragSpec{First: "if searchRequest.Limit == 0 {", Last: "finalResults = finalResults[start:end]",
+		Params: []string{"searchRequest models.SearchRequest", "finalResults []models.SearchResult"}, Results: []string{"finalResults"}}}
+
+// models.SearchResult as far as sorting looks at it, models.SortOption
+var sortStructs = []structSpec{{File: "models/point.go", Name: "PointAsMap"}, {File: "models/search.go", Name: "SearchResult", Only: []string{"DecodedData"}},
+	{File: "models/search.go", Name: "SortOption"}}
+
+
+var curateStructs = []structSpec{{File: "cluster/actions.go", Name: "FailedPoint"}}
+
+// the in-memory part of shard.IdCounter (the bucket and its keys are storage, not translated)
+var idCounterFields = []structSpec{{File: "shard/idcounter.go", Name: "IdCounter", Only: []string{"freeIds", "nextFreeId"}}}
+
+
+// a function outside the subset: reported, its whole module is not written, exit status 2
+type failure struct{ msg string }
+
 func fail(pos token.Position, format string, a ...any) {
-	fmt.Fprintf(os.Stderr, "go2lean: %s: unsupported: %s\n", pos, fmt.Sprintf(format, a...))
-	os.Exit(2)
+	panic(failure{fmt.Sprintf("go2lean: %s: unsupported: %s", pos, fmt.Sprintf(format, a...))})
 }
 
 type tr struct {
@@ -1280,6 +1333,9 @@ func main() {
 	fset := token.NewFileSet()
 	files := map[string]*ast.File{}
 	mods := map[string][]genFunc{}
+	extMods := map[string]bool{}
+	failedMods := map[string]bool{}
+	knownFuncs := map[string]map[string]*xty{}
 	var order []string
 	for _, sp := range specs {
 		f, ok := files[sp.File]
@@ -1295,7 +1351,43 @@ func main() {
 		if _, ok := mods[sp.Module]; !ok {
 			order = append(order, sp.Module)
 		}
-		for _, g := range translate(fset, f, sp) {
+		var gs []genFunc
+		func() {
+			defer func() {
+				if r := recover(); r != nil {
+					f, ok := r.(failure)
+					if !ok {
+						panic(r)
+					}
+					fmt.Fprintln(os.Stderr, f.msg)
+					failedMods[sp.Module] = true
+					gs = nil
+				}
+			}()
+			if sp.Ext {
+				extMods[sp.Module] = true
+				if knownFuncs[sp.Module] == nil {
+					knownFuncs[sp.Module] = map[string]*xty{}
+				}
+				gs = translateExt(fset, makeLoader(fset, *repo, files), sp, knownFuncs[sp.Module])
+			} else {
+				gs = translate(fset, f, sp)
+			}
+		}()
+		for _, g := range gs {
+			dup := false
+			for _, h := range mods[sp.Module] {
+				if h.name == g.name {
+					if !strings.HasPrefix(g.name, "structure ") || !strings.HasSuffix(h.text, g.text) {
+						fmt.Fprintf(os.Stderr, "go2lean: module %s: two different definitions of %s\n", sp.Module, g.name)
+						os.Exit(2)
+					}
+					dup = true
+				}
+			}
+			if dup {
+				continue
+			}
 			g.text = fmt.Sprintf("/- from %s : %s -/\n", sp.File, sp.Func) + g.text
 			mods[sp.Module] = append(mods[sp.Module], g)
 		}
@@ -1304,9 +1396,24 @@ func main() {
 		panic(err)
 	}
 	for _, m := range order {
+		if failedMods[m] {
+			fmt.Fprintf(os.Stderr, "go2lean: module %s is not written\n", m)
+			continue
+		}
 		var b strings.Builder
 		b.WriteString("-- GENERATED by tools/go2lean from the working tree of the repository. DO NOT EDIT.\n")
-		b.WriteString("import SemaModel.Base.GoRt\nnamespace Sema.Gen." + m + "\nopen Sema\n\n")
+		b.WriteString("import SemaModel.Base.GoRt\n")
+		seen := map[string]bool{}
+		for _, im := range moduleImports[m] {
+			if !seen[im] {
+				b.WriteString("import " + im + "\n")
+				seen[im] = true
+			}
+		}
+		if extMods[m] {
+			b.WriteString("set_option linter.unusedVariables false\n")
+		}
+		b.WriteString("namespace Sema.Gen." + m + "\nopen Sema\n\n")
 		for _, g := range mods[m] {
 			b.WriteString(g.text + "\n")
 		}
@@ -1314,5 +1421,8 @@ func main() {
 		if err := os.WriteFile(filepath.Join(*out, m+".lean"), []byte(b.String()), 0o644); err != nil {
 			panic(err)
 		}
+	}
+	if len(failedMods) != 0 {
+		os.Exit(2)
 	}
 }
